@@ -341,6 +341,9 @@ type snappyCodec struct {
 }
 
 func (s *snappyCodec) decompress(compressed []byte) ([]byte, error) {
+	if len(compressed) < 4 {
+		return nil, errors.New("snappy block too short to hold its checksum")
+	}
 	var err error
 	s.buf, err = snappy.Decode(s.buf[:cap(s.buf)], compressed[:len(compressed)-4])
 	if err != nil {
